@@ -14,6 +14,7 @@ def handle (line : String) : String :=
   | "H" :: cfg :: preds :: ops :: _ => runH cfg preds ops
   | "F" :: cfg :: m :: pt :: h :: _ => runF cfg m pt h
   | "E" :: h :: _ => runE h
+  | "X" :: h :: _ => runX h
   | "KYE" :: r => runKy ("KYE" :: r)
   | "KY" :: r => runKy ("KY" :: r)
   | "KYX" :: r => runKy ("KYX" :: r)
